@@ -1,0 +1,13 @@
+//go:build verif
+
+// Contracts for package kongutil, checked by /verif/engine (govc). Comment-only file.
+
+package kongutil
+
+//@ func outputFileMapper results(err)
+//@   tags C20,C04
+//@   requires dctx != nil && dctx.Scan != nil
+//@   modifies osw, osflags, oslaststat, oslastopen
+//@   ensures[C20] osw <= old(osw) + 1 @at-most-one-open
+//@   ensures[C20] osw == old(osw) + 1 ==> osflags & 0x200 == 0 && osflags & 0x40 != 0 @created-never-truncated
+//@   ensures[C20] osw == old(osw) + 1 ==> oslastopen == oslaststat && !osexists(oslastopen) @only-a-name-that-did-not-exist-is-opened
